@@ -35,7 +35,7 @@ Begin ==
     /\ l <= Len(Trace) /\ E.ev = "begin"
     /\ pc' = "rows" /\ next' = 1 /\ wg' = 0 /\ once' = NoOnce /\ sched' = <<>>
     /\ st' = [c \in Calls |-> "none"] /\ inv' = [c \in Calls |-> 0]
-    /\ cell' = [r \in Rows |-> [i \in Its |-> Absent]]
+    /\ cell' = [r \in Rows |-> [i \in Its |-> Absent]] /\ owg' = 0
     /\ Consume
 
 TRow == l <= Len(Trace) /\ E.ev = "row" /\ pc = "rows" /\ next = E.r /\ MainRow /\ Consume
